@@ -138,3 +138,24 @@ def _(u):
             TF["manual_seed"] = old
     u.prove("setstate.attributes-restored", AND(fresh._attrs["name"] == "x", fresh._attrs["check_solution"] is True, fresh._attrs["some_param"].eq(env._attrs["some_param"])))
     u.prove("setstate.rng-stream-restored", AND(isinstance(fresh._attrs["rng"], _Rng), fresh._attrs["rng"].state.eq(st0)))
+
+
+BLP = "rl4co/models/rl/reinforce/baselines.py"
+
+
+@unit("rollout_baseline.getstate_setstate", file=BLP, func="RolloutBaseline.__getstate__", props=("C19",))
+def _(u):
+    # pickling a rollout baseline keeps everything except the dataset (restored in setup); restoring keeps every other attribute
+    vals = u.tensor("bl_vals", (4,), "f")
+    obj = u.obj(BLP, "RolloutBaseline", bl_alpha=0.05, policy="the-baseline-policy", bl_vals=vals, mean=u.scalar("mean", "f"), dataset="the-dataset")
+    st = u.run(BLP, "RolloutBaseline.__getstate__", selfobj=obj, record=False)
+    u.prove("getstate.drops-only-the-dataset", sorted(st.keys()) == sorted(k for k in obj._attrs if k != "dataset"), note=f"{sorted(st.keys())} vs {sorted(obj._attrs)}")
+    u.prove("getstate.keeps-values", st["policy"] == "the-baseline-policy" and st["bl_vals"] is vals and st["bl_alpha"] == 0.05)
+    u.prove("getstate.object-untouched", obj._attrs.get("dataset") == "the-dataset")
+    new = u.obj(BLP, "RolloutBaseline")
+    u.run(BLP, "RolloutBaseline.__setstate__", st, selfobj=new, record=False)
+    u.prove("setstate.restores", new._attrs.get("policy") == "the-baseline-policy" and new._attrs.get("bl_vals") is vals and new._attrs.get("dataset") is None)
+    # a baseline that never had a dataset pickles as well
+    obj2 = u.obj(BLP, "RolloutBaseline", bl_alpha=0.05, policy="p")
+    st2 = u.run(BLP, "RolloutBaseline.__getstate__", selfobj=obj2, record=False)
+    u.prove("getstate.without-dataset", sorted(st2.keys()) == ["bl_alpha", "policy"])
